@@ -46,7 +46,15 @@ def gen(r):
     for _ in range(r.choice([0, 2, 4, 8])):
         forged.append({"t": r.uniform(0.0, t + 8.0), "cls": r.choice(["random-token", "sniffed-wrong-port", "sniffed-wrong-ip", "retired", "sniffed-true-source", "rst-wrong-source", "rst-random-mid"]), "type": r.choice(["CON", "NON", "ACK"]), "k": r.randrange(1 << 30)})
     forged.sort(key=lambda f: f["t"])
-    return {"servers": servers, "reqs": reqs, "policy": policy, "forged": forged, "shutdown_at": t + r.choice([20.0, 120.0, 120.0])}
+    unreach = None
+    if r.random() < 0.3:
+        # one more "server": an address the operating system refuses to send to (sendmsg fails synchronously)
+        servers = servers + [("10.0.0.77", 5683)]
+        unreach = len(servers) - 1
+        for q in reqs:
+            if r.random() < 0.3:
+                q["srv"] = unreach
+    return {"servers": servers, "reqs": reqs, "policy": policy, "forged": forged, "unreach": unreach, "unreach_errno": r.choice([101, 1, 22]), "shutdown_at": t + r.choice([20.0, 120.0, 120.0])}
 
 
 def run_history(h, seed, rep, case):
@@ -97,7 +105,10 @@ def run_history(h, seed, rep, case):
                 net.inject_error(C, peer.addr, 111, delay=d)
 
         peers = []
-        for ip, port in h["servers"]:
+        for si, (ip, port) in enumerate(h["servers"]):
+            if si == h.get("unreach"):
+                net.unreachable[simnet.addr(ip, port)] = h["unreach_errno"]
+                continue
             p = simnet.RawPeer(net, ip, port, on_msg)
             p.index = len(peers)
             peers.append(p)
@@ -266,6 +277,10 @@ def judge(box, h, res, rep, case):
             continue
         if e.kind == "error" and e.dst == C:
             fail_remote(e.src, "icmp", e.t)
+            continue
+        if e.kind == "senderror" and e.src == C:
+            # the transport reported an error for that remote while sending: everything outstanding for it fails
+            fail_remote(e.dst, "icmp", e.t)
             continue
         if e.kind != "deliver" or e.dst != C or e.msg is None:
             continue
